@@ -749,12 +749,6 @@ func popHasher() hash.Hasher {
 	return k
 }
 
-func boolAns(ok bool, err error) string {
-	if err != nil {
-		return "err " + errClass(err)
-	}
-	return fmt.Sprint(ok)
-}
 
 func genC16(c *Ctx) {
 	nKeys := 6
